@@ -117,8 +117,8 @@ BehavesAsToInteger(o) ==
         \/ o.out.k = "err" /\ ToInteger(y) = <<>> /\ y.t \in {"s", "cx"}
 
 Sig(o) ==
-  IF o.out.k = "cerr" THEN "uncallable|" \o FnName(o.prog, o.T)
-  ELSE IF ~DenOk(o) THEN "conv|operand-denotation|" \o SrcClass(o) \o "|" \o XClass(o.x)
+  IF ~DenOk(o) THEN "conv|operand-denotation|" \o SrcClass(o) \o "|" \o XClass(o.x) \o "|got-" \o KindOf(o.xout)
+  ELSE IF o.out.k = "cerr" THEN "uncallable|" \o FnName(o.prog, o.T)     \* the receiver alone compiles, the call does not
   ELSE IF BehavesAsToInteger(o) THEN "misbound|toQuantity|behaves-as-toInteger"
   ELSE "conv|" \o o.prog \o (IF o.alias THEN "#alias" ELSE "") \o "|" \o o.T \o "|" \o SrcClass(o) \o "|"
        \o (IF o.prog = "strto" THEN XClass(o.x) \o ">" ELSE "") \o XClass(Effective(o))
